@@ -6,7 +6,7 @@ for p in "$@"; do
   if [ -n "$(git -C /repo status --porcelain)" ]; then echo "/repo is not clean"; exit 2; fi
   git -C /repo apply "$(realpath "$p")" || { echo "$p: does not apply"; continue; }
   t0=$(date +%s)
-  out="$(./check C08 --tier ${TIER:-quick} --no-evidence --run-timeout ${RUN_TIMEOUT:-25} 2>&1)"; rc=$?
+  out="$(./check C08 --tier ${TIER:-quick} --no-evidence --run-timeout ${RUN_TIMEOUT:-25} ${EXTRA:-} 2>&1)"; rc=$?
   t1=$(date +%s)
   git -C /repo checkout -q -- . ; git -C /repo clean -fdq visitor plugin
   echo "$p: exit=$rc [$((t1-t0))s]"
